@@ -32,6 +32,98 @@ var mutatorParams = map[string]bool{
 	"BitSliceIndexing.ClearBits|target": true,
 }
 
+// Documented mutators of the bit-sliced indexes (receiver changes).
+var bsiMutators = map[string]bool{
+	"SetValue": true, "SetBigValue": true, "SetMany": true, "SetBigMany": true, "ClearValues": true, "Retain": true,
+	"ParOr": true, "Add": true, "Increment": true, "IncrementAll": true, "RunOptimize": true,
+	"UnmarshalBinary": true, "ReadFrom": true, "FromBitmaps": true,
+}
+
+// Methods documented as returning a pointer to an internal bitmap.
+var bsiInternalPointer = map[string]bool{"GetExistenceBitmap": true}
+
+func init() {
+	register("A1.bsi", "BSI queries are pure and return independent bitmaps: no exported BSI method outside the documented mutators changes the contents of the index's planes / existence bitmap or of an argument, and none returns a pointer to an internal bitmap", ruleA1BSI)
+}
+
+func ruleA1BSI(p *Prog) *RuleResult {
+	res := newResult("A1.bsi", ruleDoc["A1.bsi"], 40)
+	for _, level := range []string{"64", "B32"} {
+		e, err := p.TL(level)
+		if err != nil {
+			res.undecided("anchors:"+level, "-", err.Error())
+			continue
+		}
+		for _, f := range e.fns {
+			if !isExportedAPI(f) || f.Signature.Recv() == nil || !strings.HasSuffix(typeShort(f.Signature.Recv().Type()), "BSI") {
+				continue
+			}
+			s := e.sums[e.sumKey(f, "")]
+			if s == nil || !s.done {
+				res.undecided(fname(f), p.pos(f.Pos()), "no table-level summary")
+				continue
+			}
+			var tabs []string
+			for tab := range s.mutTab {
+				tabs = append(tabs, tab)
+			}
+			sort.Strings(tabs)
+			var bad, wit []string
+			for _, tab := range tabs {
+				pi, _, ok := rootParam(tab)
+				switch {
+				case ok && pi == 0 && bsiMutators[f.Name()]:
+					continue
+				case ok:
+					bad = append(bad, fmt.Sprintf("contents of %s (%s)", paramName(f, pi), tab))
+				default:
+					if bsiMutators[f.Name()] {
+						continue // a mutator may build temporaries reached through its own planes
+					}
+					bad = append(bad, "a bitmap of unknown identity ("+tab+")")
+				}
+				wit = append(wit, strings.Split(s.mutTab[tab], " -> ")...)
+			}
+			c := fname(f) + "|pure"
+			if len(bad) > 0 {
+				res.bad(c, p.pos(f.Pos()), "may change "+strings.Join(bad, ", "), wit...)
+			} else {
+				note := "query: changes no bitmap it did not create"
+				if bsiMutators[f.Name()] {
+					note = "mutator: changes only its receiver"
+				}
+				res.ok(c, p.pos(f.Pos()), note)
+			}
+			// returned pointers
+			for ri := 0; ri < f.Signature.Results().Len() && ri < len(s.retTab); ri++ {
+				pt, ok := f.Signature.Results().At(ri).Type().Underlying().(*types.Pointer)
+				if !ok {
+					continue
+				}
+				if n, ok := pt.Elem().(*types.Named); !ok || n.Obj().Name() != "Bitmap" {
+					continue
+				}
+				c := fmt.Sprintf("%s|result%d independent", fname(f), ri)
+				var internal []string
+				for _, r := range s.retTab[ri] {
+					if r != "L" && r != "nil" {
+						internal = append(internal, r)
+					}
+				}
+				switch {
+				case len(internal) == 0:
+					res.ok(c, p.pos(f.Pos()), "always a bitmap created by the call")
+				case bsiInternalPointer[f.Name()]:
+					res.ok(c, p.pos(f.Pos()), "documented to return the internal bitmap")
+				default:
+					res.bad(c, p.pos(f.Pos()), "may return a pointer to a bitmap it did not create: "+strings.Join(internal, ", ")+" (an internal plane / the existence bitmap / an argument)")
+				}
+			}
+		}
+	}
+	return res
+}
+
 func isExportedAPI(f *ssa.Function) bool {
 	if f.Parent() != nil || f.Synthetic != "" || f.Object() == nil || !f.Object().Exported() {
 		return false
@@ -290,4 +382,120 @@ func ruleA1Slices(p *Prog) *RuleResult {
 	_ = token.NoPos
 	res.Assumptions = append(res.Assumptions, "only direct value flow is followed (a slice argument stored in memory and written through a later load is the business of rules A3/A4)")
 	return res
+}
+
+func init() {
+	register("A7", "no second header over shared arrays: a bitmap / slot-table struct is copied by value into memory only from a freshly created one (Clone / constructor result), never from a bitmap that stays in use", ruleA7)
+}
+
+// Constructors documented as taking over (not copying) the bitmaps they are given.
+var noCopyConstructors = map[string]string{
+	"(*roaring64.BSI).FromBitmaps": "FromBitmaps documents that the index is initialised from the pre-built bitmaps without copying",
+}
+
+func containsTableByValue(t types.Type, lvs []*tlLevel, depth int) bool {
+	if depth > 4 {
+		return false
+	}
+	for _, lv := range lvs {
+		if lv.isTableStruct(t) {
+			return true
+		}
+	}
+	switch u := t.Underlying().(type) {
+	case *types.Struct:
+		for i := 0; i < u.NumFields(); i++ {
+			if containsTableByValue(u.Field(i).Type(), lvs, depth+1) {
+				return true
+			}
+		}
+	case *types.Array:
+		return containsTableByValue(u.Elem(), lvs, depth+1)
+	}
+	return false
+}
+
+func ruleA7(p *Prog) *RuleResult {
+	res := newResult("A7", ruleDoc["A7"], 5)
+	l32, l64, err := p.tlLevels()
+	if err != nil {
+		res.undecided("anchors", "-", err.Error())
+		return res
+	}
+	lvs := []*tlLevel{l32, l64}
+	for _, level := range []string{"32", "64", "B32"} {
+		e, err := p.TL(level)
+		if err != nil {
+			res.undecided("anchors:"+level, "-", err.Error())
+			continue
+		}
+		for _, f := range e.fns {
+			t := e.funcState(f)
+			n := 0
+			check := func(ins ssa.Instruction, srcAddr ssa.Value, what string) {
+				n++
+				c := fmt.Sprintf("%s|%s#%d", fname(f), what, n)
+				if why, ok := noCopyConstructors[fname(f)]; ok {
+					res.ok(c, p.ipos(ins), "documented no-copy constructor: "+why)
+					return
+				}
+				root := t.root(srcAddr)
+				if isLocalRoot(root) || t.rootLocal(root) {
+					res.ok(c, p.ipos(ins), "copied from a freshly created value ("+root+")")
+				} else {
+					res.bad(c, p.ipos(ins), "a bitmap/table struct is copied by value from "+root+", which stays in use: both headers now share the same key/container arrays and later in-place updates of one corrupt the other")
+				}
+			}
+			for _, b := range f.Blocks {
+				for _, ins := range b.Instrs {
+					switch x := ins.(type) {
+					case *ssa.Store:
+						if !containsTableByValue(x.Val.Type(), lvs, 0) {
+							continue
+						}
+						if _, toLocal := x.Addr.(*ssa.Alloc); toLocal {
+							continue // a temporary (by-value parameter spill, local copy) does not outlive the call
+						}
+						if u, ok := x.Val.(*ssa.UnOp); ok && u.Op == token.MUL {
+							if _, fromLocal := u.X.(*ssa.Alloc); fromLocal {
+								continue // composite literal built in a local
+							}
+							check(x, u.X, "struct copy")
+						}
+					case *ssa.Call:
+						if bi, ok := x.Call.Value.(*ssa.Builtin); ok && (bi.Name() == "copy" || bi.Name() == "append") {
+							var src ssa.Value
+							if bi.Name() == "copy" {
+								src = x.Call.Args[1]
+							} else if len(x.Call.Args) > 1 {
+								src = x.Call.Args[1]
+							}
+							if src == nil {
+								continue
+							}
+							if sl, ok := src.Type().Underlying().(*types.Slice); ok && containsTableByValue(sl.Elem(), lvs, 0) {
+								// elements copied out of another slice of bitmaps
+								if _, isLocalArr := srcBase(src).(*ssa.Alloc); isLocalArr {
+									continue // variadic temporary holding fresh values
+								}
+								check(x, src, bi.Name()+" of bitmap structs")
+							}
+						}
+					}
+				}
+			}
+		}
+	}
+	return res
+}
+
+func srcBase(v ssa.Value) ssa.Value {
+	for i := 0; i < 4; i++ {
+		if s, ok := v.(*ssa.Slice); ok {
+			v = s.X
+			continue
+		}
+		break
+	}
+	return v
 }
